@@ -97,7 +97,7 @@ Preds(e) ==
    P("C12", "Rids", offer /\ d.parses /\ Unified(e) /\ OneSectionPerTransceiver(d, e.trs),
         \A k \in 1..Len(e.trs) : RidsOK(d, e.trs[k])),
    P("C12", "ApplicationIff", offer /\ d.parses /\ Unified(e),
-        HasApplication(d) = (e.dc \/ e.cfg = "alwaysdc" \/ appNeg[e.who])),
+        HasApplication(d) = (e.dc \/ e.cfg = "alwaysdc" \/ (e.cfg = "alwaysdcA" /\ e.who = "A") \/ appNeg[e.who])),
    \* ---- C16
    P("C16", "PairsExist", ans, Pairs(d, o) = Pairs(d, o))
   }
